@@ -73,7 +73,8 @@ CHECKS = {
        "invalid bytes, lead and continuation bytes (malformed UTF-8 grows when decoded); (9) user types whose text has no value at "
        "all (empty, blank, comment only) or is cut short, every operation twice.",
   note="The reflective json.Marshal step of the OpenAPI conversion is outside the claim (encoding/json reflection is not executed); regex Example() (reggen) is host code and "
-       "not explored symbolically; memory exhaustion is outside; inputs longer than the bounds that are not prefix-probe shaped are outside.",
+       "not explored symbolically; memory exhaustion is outside; inputs longer than the bounds that are not prefix-probe shaped are outside. "
+       "Known finding C02-openapi-enum-alternative-panics (an `or` alternative of type enum panics the conversion) is reported as KNOWN-FINDING.",
   ref="DESIGN.md §4 C02"),
  "C16": dict(
   text="Bounded symbolic model checking: (1) position arithmetic of kit.JSchemaError on ALL texts of up to T tokens (newline in each of "
@@ -207,7 +208,8 @@ CHECKS = {
        "`or` alternatives, null/nullable (null as the one variation of a nullable root, also for `@a | @b` and `@a` shortcuts), quoted "
        "type-like keys, additionalProperties (false / a registered type) seen from the SAME Schema Object only, allOf as 'instance of "
        "every referenced conversion', two `or` alternatives of the same type, null examples under `or`, key shortcuts whose type is an "
-       "escaped string, an alias or a choice, and references resolved to the conversions of the registered types (15 shapes, symbolic scalars). "
+       "escaped string, an alias or a choice, a type recursive through a nullable required member, const inside an `or` alternative, "
+       "and references resolved to the conversions of the registered types (17 shapes, symbolic scalars). "
        "`pattern`: for 10 concrete regex rules with escapes the keyword is one JSON string that decodes to exactly the rule's "
        "expression and matches the example.",
   note="Outside the claim: the JSON TEXT of the conversion (encoding/json reflection is not executed: well-formedness, key escaping, "
@@ -249,7 +251,7 @@ CHECKS = {
        "with annotated members and a reference, array with a note and a type choice, members followed by user comments, a reference "
        "to a named enum rule as last/only rule, allOf of two types with a reference as last member, a schema that is one reference; digits, "
        "letters and notes symbolic; each of the ten models must be accepted on some path) are printed "
-       "canonically and with ONE (quick) or TWO (thorough) layout dimensions changed - LF/CRLF/CR, indentation, blanks after colons, "
+       "canonically and with ONE layout dimension changed (thorough: plus a second one out of line ends, /* */ style, user comments) - LF/CRLF/CR, indentation, blanks after colons, "
        "blanks before annotations, blanks between a rule name and its colon, blanks before the closing brace of a rule set, the spelling "
        "of the bar of a type choice (AST compared with blanks inside reference texts removed), list items of a rule on their own lines, // vs "
        "/* */, quoted vs bare rule names, # line comments and ### block comments, leading and "
